@@ -131,12 +131,16 @@ func (l *lbCtx) lb0(v ssa.Value) int64 {
 		// bound from the edges not (transitively) depending on the phi, then check the rest
 		init := int64(math.MaxInt64)
 		var cyc []ssa.Value
-		for _, e := range x.Edges {
+		for ei, e := range x.Edges {
 			if dependsOn(e, x, 0) {
 				cyc = append(cyc, e)
 				continue
 			}
-			init = minLb(init, l.lb(e))
+			eb := l.lb(e)
+			if g := guardLb(e, x.Block().Preds[ei], x.Block()); g != lbUnknown && (eb == lbUnknown || g > eb) {
+				eb = g
+			}
+			init = minLb(init, eb)
 			if init == lbUnknown {
 				return lbUnknown
 			}
@@ -362,4 +366,47 @@ func containsRem(v ssa.Value, depth int) *ssa.BinOp {
 		return containsRem(x.X, depth+1)
 	}
 	return nil
+}
+
+// guardLb: a lower bound for v implied by the branch conditions on the way to the edge
+// pred -> blk (the edge's own condition and those of single-predecessor dominators).
+func guardLb(v ssa.Value, pred, blk *ssa.BasicBlock) int64 {
+	best := int64(lbUnknown)
+	from, to := pred, blk
+	for steps := 0; steps < 12 && from != nil; steps++ {
+		if iff, ok := from.Instrs[len(from.Instrs)-1].(*ssa.If); ok && from.Succs[0] != from.Succs[1] {
+			taken := -1
+			if from.Succs[0] == to {
+				taken = 0
+			} else if from.Succs[1] == to {
+				taken = 1
+			}
+			if cmp, ok := iff.Cond.(*ssa.BinOp); ok && taken >= 0 && cmp.X == v {
+				if k, ok := constInt(cmp.Y); ok {
+					kk := int64(k)
+					var b int64 = lbUnknown
+					switch {
+					case cmp.Op == token.LSS && taken == 1:
+						b = kk
+					case cmp.Op == token.GEQ && taken == 0:
+						b = kk
+					case cmp.Op == token.GTR && taken == 0:
+						b = kk + 1
+					case cmp.Op == token.LEQ && taken == 1:
+						b = kk + 1
+					case cmp.Op == token.EQL && taken == 0:
+						b = kk
+					}
+					if b != lbUnknown && (best == lbUnknown || b > best) {
+						best = b
+					}
+				}
+			}
+		}
+		if len(from.Preds) != 1 {
+			break
+		}
+		to, from = from, from.Preds[0]
+	}
+	return best
 }
